@@ -3,6 +3,7 @@
 #define TETL_NUMERIC_GCD_HPP
 
 #include <etl/_type_traits/common_type.hpp>
+#include <etl/_type_traits/make_unsigned.hpp>
 
 namespace etl {
 
@@ -16,15 +17,18 @@ template <typename M, typename N>
 [[nodiscard]] constexpr auto gcd(M m, N n) noexcept -> etl::common_type_t<M, N>
 {
     using R = etl::common_type_t<M, N>;
+    using U = etl::make_unsigned_t<R>;
 
-    auto a = static_cast<R>(m);
-    auto b = static_cast<R>(n);
+    // |m| and |n| in the unsigned common type. The magnitude of the most
+    // negative value is representable there.
+    auto a = m < 0 ? static_cast<U>(U(0) - static_cast<U>(static_cast<R>(m))) : static_cast<U>(static_cast<R>(m));
+    auto b = n < 0 ? static_cast<U>(U(0) - static_cast<U>(static_cast<R>(n))) : static_cast<U>(static_cast<R>(n));
     while (b != 0) {
-        auto const t = static_cast<R>(a % b);
+        auto const t = static_cast<U>(a % b);
         a            = b;
         b            = t;
     }
-    return a;
+    return static_cast<R>(a);
 }
 
 } // namespace etl
